@@ -832,6 +832,14 @@ def rloopWith (run : St → Res) (runElse : Option (St → Res)) (ls : RLoopSpec
       -- an error caught inside an iteration (rl.err) is put back and the function returns
       afterLoop runElse r { r.st with c := { r.st.c with err := none } }
 
+/-- `Ctx.rloop` with the substitution of a square-bracket index in the SOURCE path (repair: inside a counter loop
+    `{% for _, v := range m[i] %}` used to look up the literal name `m[i]`, found nothing and rendered its else branch).
+    An index whose value cannot be written as text leaves `ctx.Err` and no loop, as in `get` / `cmp` / `cmpLC`. -/
+def rloopQB (run : St → Res) (runElse : Option (St → Res)) (ls : RLoopSpec) (s : St) : Res :=
+  match cmpPath s.c.vars s.c.chQB ls.src with
+  | none => ok { s with c := { s.c with err := some .unknownType } }
+  | some p => rloopWith run runElse { ls with src := p } s
+
 /-- What a loop node returns when `ctx.Err` is set after the loop: the error; a break / continue signal left
     there by the for-else branch is handed to the parent loop and cleared (repair). -/
 def loopErrRes (st : St) (e : Err) : Res :=
@@ -917,7 +925,7 @@ def writeNode (reg : Registry) : Nat → Node → St → Res
       loopNode (cloopWith (fun st => writeSeq reg f body st) (els.map (fun e st => elseRun (elseSeq (e.map (fun n st' => writeNode reg f n st'))) (!e.isEmpty) st)) f ls) s
     | .rloop ls child =>
       let (body, els) := loopParts child
-      loopNode (rloopWith (fun st => writeSeq reg f body st) (els.map (fun e st => elseRun (elseSeq (e.map (fun n st' => writeNode reg f n st'))) (!e.isEmpty) st)) ls) s
+      loopNode (rloopQB (fun st => writeSeq reg f body st) (els.map (fun e st => elseRun (elseSeq (e.map (fun n st' => writeNode reg f n st'))) (!e.isEmpty) st)) ls) s
     | .brk d => fail { s with c := { s.c with brkD := max s.c.brkD (max d 1) } } .breakLoop
     | .lbrk d => ok { s with c := { s.c with brkD := max s.c.brkD (max d 1) } }
     | .cont => fail s .contLoop
